@@ -28,7 +28,7 @@ SPEC = dict(
          "connection and state()==Disconnected; the client-side log view and the server-side byte view must agree. Time is the op `tick`: keep-alive configured with an interval of one hour, `tick` delivers the timer event to every "
          "running periodic timer of the outgoing client. Stall scenarios (correspondence lines): the server stalls two intervals at EVERY point of "
          "every conforming flow (19 policies; TLS enabled and TLS required) and once inside the session, plus ticks around a see-other-host; "
-         "a ping or <r/> on the clear link is an oracle failure (…:keepalive-timer). Three real-time scenarios (real interval 1 s, 1.4 s pass "
+         "a ping or <r/> on the clear link is an oracle failure (…:keepalive-timer). Live-socket reconnects: cfg ar=1, ops `closenotify` (TLS close_notify, TCP kept: the harness keeps a duplicate of the descriptor and reads the raw bytes afterwards) and `rtick` (fires QXmppClient's reconnect timer); oracle: an encrypted client socket must never become unencrypted on the same TCP connection (QSslSocket::isEncrypted() before/after every op), nothing but the allowed elements in the raw view. Three real-time scenarios (real interval 1 s, 1.4 s pass "
          "before TLS) are judged by the oracle only. NOT modelled/exercised: elements that follow, in the same read, an element that makes the client "
          "disconnect or start the TLS handshake (<proceed/> + more data in one segment).",
     trusted_base=[
@@ -45,15 +45,15 @@ SPEC = dict(
         "QSslSocket::supportsSsl() is true in this environment: the localTls=false branch of the model is proved but not exercised on the implementation",
         "mechanism selection is abstracted to {PLAIN, SCRAM-SHA-1, HT-SHA-256-NONE, unsupported} (full ranking: C05); SM counters/acks: C09; framing: C03",
     ],
-    level_text="Theorem over ALL server scripts of any length (no hypothesis about the server; alphabet incl. stanza-shaped elements in foreign/"
-               "empty/jabber:server namespaces, <r/>, <a/>, white space, half elements, error+close in one read): with TLS required nothing but "
-               "stream open/starttls/stream close is ever written to an unencrypted wire, hence no password, digest or token. For every "
-               "configuration and every reachable state waiting before TLS: any element but stream features / stream error is rejected "
-               "(pre_tls_element_is_rejected); no keep-alive ping / <r/> on a clear link however long the server stalls, and a tick writes "
-               "something only inside a session (no_keepalive_before_encryption, keepalive_only_in_session); features without starttls, <failure/> to starttls, and <proceed/> + failed handshake each end in "
-               "stream close + disconnected (tls_unavailable_disconnects, starttls_failure_disconnects, failed_handshake_disconnects); "
-               "'version-less header => give up'; 'jabber:client IQ request before TLS => rejected'. The scripts that used to leak (fixed by "
-               "e0bbad9, fa0779c and e3d3c0f: foreign-namespace version IQ, <r/> after a redirect with stream management left on) are replayed first.",
+    level_text="PARTIAL (open finding): theorem over all server scripts of any length (alphabet incl. foreign-namespace elements, <r/>, <a/>, "
+               "white space, half elements, error+close in one read, time `tick`, TLS close_notify without TCP close, reconnect timer): with TLS required "
+               "nothing but stream open/starttls/stream close is ever written to an unencrypted wire - PROVIDED the reconnect timer never fires on a "
+               "connected socket (part of appWaits; the other parts are application side). C04_defect_cleartext_after_reconnect_on_live_socket proves "
+               "the proviso necessary: close_notify + automatic reconnection make connectToHost() run on the live socket, QSslSocket falls back to "
+               "plaintext, session and isConnected() stay, keep-alive pings and application stanzas go out in clear (reproduced, independent reproducer "
+               "confirmed; fix fixes/C04-connect-on-live-socket.diff). Unconditional: pre_tls_element_is_rejected, tls_unavailable_disconnects, "
+               "starttls_failure_disconnects, failed_handshake_disconnects, versionless_header_gives_up, iq_request_before_tls_is_rejected, "
+               "keepalive_only_in_session. Former leaks (e0bbad9, fa0779c, e3d3c0f) are replayed first.",
     level_note="Also proved: an application that sends only while isConnected() (and connects only while disconnected) satisfies the scope "
                "hypothesis automatically - with TLS required isConnected() implies an encrypted link; and a request sent on a connected "
                "unencrypted link does go out in clear (the scope hypothesis cannot be dropped). Proved about the hand-written model; the model-to-code tie is differential (exhaustive to depth 3/4 over a reduced "
